@@ -420,6 +420,17 @@ impl<K: KeyT, V: ValT> World<K, V> {
             o["k"] = json!(k);
         }
         if let Some(p) = op.get("pred").and_then(|x| x.as_object()) {
+            if let Some(ab) = p.get("all_but").and_then(|x| x.as_object()) {
+                // keep everything except the i-th key of one table
+                let i = ab.get("i").and_then(|x| x.as_u64()).unwrap_or(0) as usize;
+                let from = if ab.get("cls").and_then(|x| x.as_str()) == Some("old") { &b } else { &a };
+                if from.is_empty() {
+                    return None;
+                }
+                let victim = from[i % from.len()];
+                let ks: Vec<u32> = a.iter().chain(b.iter()).copied().filter(|&k| k != victim).collect();
+                o["pred"] = json!({"keys": ks});
+            }
             if let Some(t) = p.get("table").and_then(|x| x.as_str()) {
                 let mut ks = if t == "main" { a.clone() } else { b.clone() };
                 if let Some(n) = p.get("keep").and_then(|x| x.as_u64()) {
